@@ -197,6 +197,204 @@ fn gen_op(rng: &mut Prng, pool: &[Value], live: &mut Live, allow_clone: bool) ->
     }
 }
 
+
+// ------------------------------------------------------------------------------------------------
+// scenario histories (W2, second pass): shapes the random histories reach too rarely
+// ------------------------------------------------------------------------------------------------
+
+fn shuffle<T>(rng: &mut Prng, v: &mut Vec<T>) {
+    for i in (1..v.len()).rev() {
+        let j = rng.below(i + 1);
+        v.swap(i, j);
+    }
+}
+
+/// Scenario A — a regex tree (marker paths of one bucket, or the marker hosts of a HostMatcher) is
+/// emptied by SINGLE removes (sometimes by a batch), then a marker rule is inserted again.  The literal
+/// parts of the patterns contain upper-case letters and the probes come in every letter case, so under
+/// ignore_path_and_query_case / ignore_host_case the tree must still match case-insensitively after
+/// having been empty (and case-sensitively when the flag is off).
+fn gen_case_flag_scenario(rng: &mut Prng) -> Value {
+    let mut cfg = gen_cfg(rng);
+    let on_path = rng.chance(1, 2);
+    if rng.chance(5, 6) {
+        cfg[if on_path { "ipc" } else { "ihc" }] = json!(true);
+    }
+    const MPATHS: &[&str] = &["/A/@d", "/A/@l", "/Ab@x", "/A/@d/C", "/B/@d-@l", "/a/@d"];
+    const MHOSTS: &[&str] = &["Shop-@d.A.com", "A@d.com", "@l.COM", "@l.A.com", "shop-@d.a.com"];
+    let shared_host: Value = if rng.chance(1, 2) { Value::Null } else { json!(*rng.pick(&["A.com", "a.com", "@l.COM"])) };
+    let nm = rng.range(1, 3);
+    let mut pool: Vec<Value> = Vec::new();
+    for i in 0..nm {
+        let mut r = json!({"id": format!("m{i}"), "rank": i, "markers": "dlsx"});
+        if on_path {
+            r["path"] = json!(*rng.pick(MPATHS));
+            if !shared_host.is_null() {
+                r["host"] = shared_host.clone();
+            }
+        } else {
+            r["host"] = json!(*rng.pick(MHOSTS));
+            r["path"] = json!(*rng.pick(&["/X", "/x", "/A/@d"]));
+        }
+        pool.push(r);
+    }
+    // a static companion in the same matcher (keeps the matcher alive while its tree is empty), sometimes
+    let companion = rng.chance(1, 2);
+    let ci = pool.len();
+    {
+        let mut r = json!({"id": "st", "rank": 7, "path": *rng.pick(&["/A/B", "/X", "/a"])});
+        if on_path && !shared_host.is_null() {
+            r["host"] = shared_host.clone();
+        } else if !on_path {
+            r["host"] = json!(*rng.pick(&["A.com", "b.com"]));
+        }
+        pool.push(r);
+    }
+    // second versions (same ids, other upper-case patterns) for the re-insertion
+    let first_version = pool.len();
+    for i in 0..nm {
+        let mut r = pool[i].clone();
+        if on_path {
+            r["path"] = json!(*rng.pick(MPATHS));
+        } else {
+            r["host"] = json!(*rng.pick(MHOSTS));
+        }
+        pool.push(r);
+    }
+    let mut ops: Vec<Value> = Vec::new();
+    let mut order: Vec<usize> = (0..nm).collect();
+    shuffle(rng, &mut order);
+    if companion && rng.chance(1, 2) {
+        ops.push(json!({"op":"insert","r":ci}));
+    }
+    for &i in &order {
+        ops.push(json!({"op":"insert","r":i}));
+    }
+    if companion && !ops.iter().any(|o| o["r"] == json!(ci)) {
+        ops.push(json!({"op":"insert","r":ci}));
+    }
+    if rng.chance(1, 4) {
+        ops.push(json!({"op":"cache","n": if rng.chance(1, 2) { Value::Null } else { json!(2) }}));
+    }
+    // empty the tree
+    shuffle(rng, &mut order);
+    if rng.chance(1, 5) {
+        ops.push(json!({"op":"batch","ids": order.iter().map(|i| format!("m{i}")).collect::<Vec<String>>()}));
+    } else {
+        for &i in &order {
+            ops.push(json!({"op":"remove","id": format!("m{i}")}));
+        }
+    }
+    if companion && rng.chance(1, 3) {
+        ops.push(json!({"op":"remove","id":"st"}));
+    }
+    // insert marker rules again (either version), then a few more steps
+    shuffle(rng, &mut order);
+    let back = rng.range(1, nm);
+    for &i in order.iter().take(back) {
+        ops.push(json!({"op":"insert","r": if rng.chance(1, 2) { i } else { first_version + i }}));
+    }
+    if rng.chance(1, 2) {
+        let i = order[0];
+        ops.push(json!({"op":"remove","id": format!("m{i}")}));
+        ops.push(json!({"op":"insert","r": if rng.chance(1, 2) { i } else { first_version + i }}));
+    }
+    // probes: derived from the marker rules, plus fixed ones in every letter case
+    let mut probes: Vec<Value> = (0..3).map(|_| gen_request(rng, &pool)).collect();
+    let fixed_paths = ["/a/1", "/A/1", "/a/x", "/ABq", "/abq", "/a/1/c", "/A/1/C", "/b/1-x", "/B/1-x", "/X", "/x"];
+    let fixed_hosts = ["shop-7.a.com", "SHOP-7.A.COM", "Shop-7.A.com", "a1.com", "A1.com", "abc.com", "abc.COM", "x.a.com", "X.A.com", "A.com", "a.com"];
+    for _ in 0..5 {
+        let mut q = json!({"path": *rng.pick(&fixed_paths)});
+        if !on_path || !shared_host.is_null() || rng.chance(1, 3) {
+            q["host"] = json!(*rng.pick(&fixed_hosts));
+        }
+        probes.push(q);
+    }
+    json!({"cfg": cfg, "pool": pool, "probes": probes, "ops": ops})
+}
+
+/// Scenario B — two or three live rules share the SAME static path in the SAME innermost bucket (all
+/// other triggers identical, incl. header / date-time condition groups, method lists, ip ranges), another
+/// rule is removed by batch_remove / a change-set (which leaves the `count`s stale), then one of the
+/// sharers is removed by a single remove; probes hit the sharers, `len` is observed after every step.
+fn gen_sharers_scenario(rng: &mut Prng) -> Value {
+    let cfg = gen_cfg(rng);
+    let mut base = gen_rule(rng, "s0");
+    base["path"] = json!(*rng.pick(&["/a", "/a/b", "/A", "/x_y"]));
+    if rng.chance(1, 2) {
+        // make sure a condition-group layer is involved half of the time
+        if rng.chance(1, 2) {
+            base["headers"] = json!([gen_header_cond(rng)]);
+        } else {
+            base["weekdays"] = json!([rng.below(7), rng.below(7), rng.below(7)]);
+        }
+    }
+    let k = rng.range(2, 3);
+    let mut pool: Vec<Value> = Vec::new();
+    for i in 0..k {
+        let mut r = base.clone();
+        r["id"] = json!(format!("s{i}"));
+        r["rank"] = json!(i);
+        pool.push(r);
+    }
+    // others: one in the same bucket chain but another path, one unrelated, one second version of s0 elsewhere
+    let mut o0 = base.clone();
+    o0["id"] = json!("o0");
+    o0["path"] = json!(*rng.pick(&["/zzz", "/a/@d", "/a/1"]));
+    o0["markers"] = json!("d");
+    pool.push(o0);
+    pool.push(gen_rule(rng, "o1"));
+    let mut v = gen_rule(rng, "s0");
+    v["id"] = json!("s0");
+    pool.push(v);
+    let (io0, io1, iv) = (k, k + 1, k + 2);
+    let mut ops: Vec<Value> = Vec::new();
+    let mut ins: Vec<usize> = (0..k).chain([io0, io1]).collect();
+    shuffle(rng, &mut ins);
+    for i in ins {
+        ops.push(json!({"op":"insert","r":i}));
+    }
+    // touch another rule with a batch removal or a change-set
+    match rng.below(4) {
+        0 => ops.push(json!({"op":"batch","ids":["o0"]})),
+        1 => ops.push(json!({"op":"batch","ids":["o1","nope"]})),
+        2 => ops.push(json!({"op":"change","a":[],"u":[io1],"d":["o0"]})),
+        _ => ops.push(json!({"op":"change","a":[],"u":[],"d":["o1"]})),
+    }
+    if rng.chance(1, 4) {
+        ops.push(json!({"op":"cache","n":null}));
+    }
+    // single removes of sharers, one by one, sometimes re-inserting
+    let mut order: Vec<usize> = (0..k).collect();
+    shuffle(rng, &mut order);
+    let first = order[0];
+    ops.push(json!({"op":"remove","id": format!("s{first}")}));
+    match rng.below(4) {
+        0 => ops.push(json!({"op":"insert","r": first})),
+        1 => {
+            if first == 0 {
+                ops.push(json!({"op":"insert","r": iv}));
+            } else {
+                ops.push(json!({"op":"insert","r": first}));
+            }
+        }
+        2 => {
+            let second = order[1];
+            ops.push(json!({"op":"remove","id": format!("s{second}")}));
+        }
+        _ => {}
+    }
+    if rng.chance(1, 2) {
+        let last = order[k - 1];
+        ops.push(json!({"op":"remove","id": format!("s{last}")}));
+    }
+    let sharer = vec![pool[1].clone()];
+    let mut probes: Vec<Value> = (0..4).map(|_| gen_request(rng, &sharer)).collect();
+    probes.push(gen_request(rng, &pool));
+    probes.push(gen_request(rng, &pool));
+    json!({"cfg": cfg, "pool": pool, "probes": probes, "ops": ops})
+}
+
 fn gen_case(rng: &mut Prng) -> Value {
     let cfg = gen_cfg(rng);
     let pool = gen_pool(rng);
@@ -373,8 +571,13 @@ fn gen(args: &Args, emit: &mut dyn FnMut(Value)) {
     if args.tier == "thorough" {
         gen_exhaustive(emit);
     }
-    for _ in 0..args.n {
-        emit(gen_case(&mut rng));
+    for i in 0..args.n {
+        // a quarter of the cases are scenario histories (see above), the rest random histories
+        match i % 8 {
+            3 => emit(gen_case_flag_scenario(&mut rng)),
+            7 => emit(gen_sharers_scenario(&mut rng)),
+            _ => emit(gen_case(&mut rng)),
+        }
     }
 }
 
